@@ -34,6 +34,7 @@ class PROP(Prop):
     design_ref = "DESIGN.md section 4, C19"
     targets = [f"{GB}:ChannelFileRead.read", f"{GB}:ChannelFileRead.readline", f"{GB}:ChannelFile.close",
                f"{GB}:ChannelFileWrite.write", f"{GB}:ChannelFileWrite.flush", f"{GB}:Channel.makefile"]
+    heavy = {f"{GB}:ChannelFileRead.readline": 8, f"{GB}:ChannelFileRead.read": 4}
     assumptions = [
         "Channel.receive() is a ghost iterator: the items sent, in order, then EOFError for ever (decided for the real queue by C02/C03); RemoteError while reading a file is not modelled",
         "items are all str (typing.cast(str, ...) in the code is taken at its word); u2str is the text of an item",
@@ -65,10 +66,7 @@ class PROP(Prop):
             b, r = sv("probe_buffer") or "", sv("probe_rest") or ""
             npend = iv("probe_npending") or 0
             items = ([b] if b else []) + ([r] if npend <= 1 or len(r) < 2 else [r[: len(r) // 2], r[len(r) // 2:]])
-            n = None
-            for name, v in ob.inputs.items():
-                if name == "n":
-                    n = smt.model_value(m, v.t)
+            n = ob.input_value("n")
             first = ["read", len(b)] if b else None
             call = ["read", n if isinstance(n, int) and n >= 0 else 1] if "read/" in ob.id and "readline" not in ob.id else ["readline"]
             cases.append({"items": [x for x in items if isinstance(x, str)], "calls": ([first] if first else []) + [call, call], "proxyclose": False})
